@@ -66,6 +66,11 @@ func boundary() []Scenario {
 		{Op: "events", Kind: "perform", Conf: 1, FirstOnly: true},
 		{Op: "logs", Nodes: all4, Logs: seqInts(165, 167), BlkOff: 9},
 		{Op: "round", Nodes: all4, Byz: "copy1"}, {Op: "round", Nodes: all4, Byz: "copy1"}, {Op: "round", Nodes: all4, Byz: "copy1"}}})
+	// an unusual but legal gas configuration: some units of work alone exceed the report gas limit (single-upkeep
+	// reports); what the report carries must still be, field for field, what was checked and agreed
+	ss = append(ss, Scenario{Family: "heavy-gas-over-report-limit", N: 4, F: 1, Byz: []int{3}, Heavy: true, Steps: []Step{
+		{Op: "logs", Nodes: all4, Logs: seqInts(170, 178)}, {Op: "round", Nodes: all4, Byz: "honest"}, {Op: "round", Nodes: all4, Byz: "copy1"},
+		{Op: "events", Kind: "perform", Conf: 1}, {Op: "round", Nodes: all4, Byz: "honest"}}})
 	// a node that lacks part of the agreed work and gets the attested report late (after it built its next observation)
 	ss = append(ss, Scenario{Family: "late-report-partial-staging", N: 4, F: 1, Byz: []int{3}, Steps: []Step{
 		{Op: "logs", Nodes: []int{0, 1}, Logs: seqInts(45, 51)}, {Op: "logs", Nodes: []int{2}, Logs: seqInts(47, 51)},
@@ -160,7 +165,7 @@ func condFamilies() []Scenario {
 func randomScenario(r *Rng, k int) Scenario {
 	nf := [][2]int{{4, 1}, {4, 1}, {7, 2}, {10, 3}}[r.Intn(4)]
 	n, f := nf[0], nf[1]
-	sc := Scenario{Family: "random", N: n, F: f}
+	sc := Scenario{Family: "random", N: n, F: f, Heavy: r.Chance(1, 4)}
 	for len(sc.Byz) < r.Intn(f+1) {
 		b := r.Intn(n)
 		dup := false
